@@ -179,9 +179,9 @@ def printed_tuples(out, tag):
 
 # ------------------------------------------------------------------ trace validation (loop C)
 TRACE_CFG = """SPECIFICATION TraceSpec
+CHECK_DEADLOCK FALSE
 CONSTANTS
   Claim = "%s"
-CHECK_DEADLOCK FALSE
 """
 
 
